@@ -135,6 +135,7 @@ type storeSim struct {
 	crashSeed       uint64
 	lastCrash       string
 	yieldOn         bool
+	lastTasks       []*ytask // tasks of the last runTasks call, with their invoke / return stamps
 }
 
 type ytask struct {
@@ -144,6 +145,10 @@ type ytask struct {
 	site   string
 	done   bool
 	err    error
+	// scheduler steps at which the task was first resumed and at which it was first seen finished: the
+	// invoke / return stamps of the recorded history (one task runs between two observations, so the
+	// order of returns is exact)
+	callStep, retStep int
 }
 
 func beDist(id [32]byte, node enode.ID) *big.Int {
@@ -750,11 +755,16 @@ func (s *storeSim) runTasks(sched *prng, fns []func()) (trace []byte, stuck bool
 		<-started
 	}
 	steps := 0
+	stamp := 0
+	s.lastTasks = tasks
 	for {
 		synctest.Wait()
 		var runnable []int
 		alldone := true
 		for i, t := range tasks {
+			if t.done && t.retStep == 0 {
+				t.retStep = stamp
+			}
 			if !t.done {
 				alldone = false
 				if t.parked {
@@ -788,6 +798,11 @@ func (s *storeSim) runTasks(sched *prng, fns []func()) (trace []byte, stuck bool
 		if len(trace) < 4096 {
 			trace = append(trace, byte(pick))
 		}
+		stamp++
+		if tasks[pick].callStep == 0 {
+			tasks[pick].callStep = stamp
+		}
+		stamp++
 		tasks[pick].resume <- struct{}{}
 		steps++
 	}
@@ -842,6 +857,7 @@ func (s *storeSim) doPar(batch []opSpec) {
 	// quiescent: all puts returned
 	v := s.scan()
 	okPuts := 0
+	allRes := res
 	var gets []*putRes
 	for _, pr := range res {
 		if pr.isGet {
@@ -936,6 +952,53 @@ func (s *storeSim) doPar(batch []opSpec) {
 			if _, ok := v.items[id]; !ok {
 				w.violate("C04", "vanished", "item %s vanished although no put was accepted", short(id))
 			}
+		}
+	}
+	// the recorded history of the batch (invoke / return stamped with scheduler steps) against a per-id
+	// register: see linearizableBatch
+	{
+		var hops []histOp
+		ti := 0
+		for _, pr := range allRes {
+			t := s.lastTasks[ti]
+			ti++
+			h := histOp{client: ti, id: pr.id, isGet: pr.isGet, val: pr.val, call: t.callStep, ret: t.retStep}
+			switch {
+			case pr.err == nil:
+				h.ok = true
+			case errors.Is(pr.err, storage.ErrContentNotFound), errors.Is(pr.err, storage.ErrInsufficientRadius):
+			default:
+				continue // reported above
+			}
+			hops = append(hops, h)
+		}
+		var putBytes uint64
+		for _, pr := range res {
+			if pr.err == nil {
+				putBytes += uint64(32 + len(pr.val))
+			}
+		}
+		// a prune runs when the store's own usage figure (which counts overwrites twice and so can be
+		// well above the bytes held) crosses the capacity; it also shows when an id is gone afterwards
+		usageBefore := before.real
+		if before.persisted > usageBefore {
+			usageBefore = before.persisted
+		}
+		pruneable := usageBefore+putBytes > storeCap
+		for id := range before.items {
+			if _, ok := v.items[id]; !ok {
+				pruneable = true
+			}
+		}
+		for _, pr := range res {
+			if _, ok := v.items[pr.id]; pr.err == nil && !ok {
+				pruneable = true
+			}
+		}
+		if why := linearizableBatch(s.model, hops, pruneable); why != "" {
+			w.violate("C04", "not-linearizable", "par#%d: the concurrent puts and gets on one id admit no sequential order (%s)", s.opIdx, why)
+		} else {
+			w.probe("par_history_linearizable")
 		}
 	}
 	s.model = newModel
